@@ -10,6 +10,7 @@ FIELD_PROPS = {
     "id": ["C14", "C02"], "idc": ["C14", "C02"], "ff": ["C14", "C02"], "ffc": ["C14", "C02"], "ns": ["C14"],
     "reg": ["C03", "C02"], "regdom": ["C03", "C02"], "vir": ["C03", "C02"], "greek": ["C03", "C02"], "hebrew": ["C03", "C02"],
     "kana": ["C03", "C02"], "ld": ["C03", "C02"], "rd": ["C03", "C02"],
+    "mdl": ["C03", "C02"], "mdr": ["C03", "C02"], "aidx": ["C03", "C02"], "eaidx": ["C03", "C02"], "own": ["C03", "C02"],
     "wm1": ["C11", "C04"], "wm2": ["C11", "C04"], "wm3": ["C11", "C04"], "wm4": ["C11", "C04"],
     "lc1": ["C10", "C04"], "lc2": ["C10"], "lc3": ["C10", "C04"],
     "osp": ["C12", "C05"], "nsp": ["C12"], "osp2": ["C12", "C05"], "nsp2": ["C12", "C06"],
